@@ -49,6 +49,22 @@ def build(tier, seed):
                 ops.append({"op": "setvalues", "sid": new["sid"], "V": [frac(v) for v in gen.rand_values(rng, S, R=4, denom=1)]})
             for k in [1, 1, 3, 20]:
                 ops.append({"op": "solve", "sid": new["sid"], "k": k, "_new": new})
+    # forced family: a problem-supplied initial policy that passes its evaluation test on the very first sweep from the (zero) initial values —
+    # the same expected immediate reward in every state under the span test, zero reward under max_diff.  The evaluation hands the initial
+    # values back unchanged, the policy is not greedy for them, so the improvement step must change it and the solver must go on.
+    for j, (test, fee) in enumerate([("span", 1.5), ("max_diff", 0.0), ("span", -2.0), ("max_diff", 0.0)][: 2 if tier == "quick" else 4] * (1 if tier == "quick" else 2)):
+        spec = gen.gen_spec(rng, smax=8, S=rng.randint(3, 8), A=rng.choice([2, 3, 4]), kind="random", denom=4, R=5, adim=2, initpol=True, init=False, near_tie=False)
+        spec = gen.flat_initial_policy(spec, rng, fee)
+        S = spec_size(spec)
+        ops = jobs[j % W][0]
+        pid = f"flat{j}"
+        ops.append({"op": "problem", "id": pid, "spec": {k: v for k, v in spec.items() if not k.startswith("_")}, "_tags": spec["_tags"]})
+        for r in (0, 1):
+            new = {"op": "new", "solver": "pi", "id": pid, "maxbs": rng.choice(gen.layouts_for(S)), "gamma": "1/2", "eps": "1/16",
+                   "test": test, "budget": rng.choice([5, 100]), "reset": r, "sid": f"sflat{j}_{r}", "n_hint": S}
+            ops.append(new)
+            for k in [1, 1, 20]:
+                ops.append({"op": "solve", "sid": new["sid"], "k": k, "_new": new})
     return [j for j in jobs if j[0]]
 
 
